@@ -357,6 +357,9 @@ def replace_all_uses_with(
         replacements = (replacements,)
     if len(values) != len(replacements):
         raise ValueError("The number of values and replacements must match.")
+    # Check all pairs first so that a rejected pair leaves the other pairs unreplaced
+    for value, replacement in zip(values, replacements):
+        value._check_replace_all_uses_with(replacement, replace_graph_outputs)  # pylint: disable=protected-access
     for value, replacement in zip(values, replacements):
         value.replace_all_uses_with(replacement, replace_graph_outputs=replace_graph_outputs)
 
